@@ -130,6 +130,71 @@ def ordering(chk):
             chk.violation(R, inst, F.where(), 'call order / count changed (%d, %d calls)' % (len(a), len(b)), key='%s %s' % (R, fn))
 
 
+def dep_rules(chk):
+    """acceptance must depend on everything TLS authenticates (RFC 5246 6.2.3.1 / 6.2.3.3): for each decrypt method the condition of
+    the branch that guards the NULL return may-depends on seq, type, version, length, record bytes and the keys.  A missing atom is a
+    definite independence: tampering with that input cannot be detected."""
+    from .. import flow
+    from ..flow import AV, BOT, Engine, Policy
+    from .c08 import X, SEC, whole, fields
+    R = 'acceptance-depends-on-authenticated-input'
+    units = flow.all_units()
+    modes = {
+        'cbc': ('ssl__ssl_rec_cbc', 'cbc_decrypt', fields([(8, 16, 'seq'), (24, 408, 'key'), (424, 552, 'key')]),
+                {((0,), 16): ['br_aes_ct_cbcdec_vtable'], ((0,), 416): ['br_sha1_vtable', 'br_sha256_vtable', 'br_sha384_vtable']}),
+        'gcm': ('ssl__ssl_rec_gcm', 'gcm_decrypt', fields([(8, 16, 'seq'), (24, 264, 'key'), (280, 300, 'key')]),
+                {((0,), 16): ['br_aes_ct_ctr_vtable'], ((0,), 272): ['F:br_ghash_ctmul']}),
+        'ccm': ('ssl__ssl_rec_ccm', 'ccm_decrypt', fields([(8, 16, 'seq'), (24, 264, 'key'), (272, 276, 'key')]),
+                {((0,), 16): ['br_aes_ct_ctrcbc_vtable']}),
+        'chapol': ('ssl__ssl_rec_chapol', 'chapol_decrypt', fields([(8, 16, 'seq'), (16, 60, 'key')]),
+                   {((0,), 64): ['F:br_chacha20_ct_run'], ((0,), 72): ['F:br_poly1305_ctmul_run']}),
+    }
+    atoms = ['seq', 'type', 'version', 'len', 'data', 'key']
+    for mode, (un, fn, ctxf, prules) in modes.items():
+        pol = Policy({(0,): ctxf, (3,): whole('data'), (4,): whole('len')}, nonct=())
+        pol.ptr_rules = prules
+        pol.keep_marks = True
+        pol.public_results = ()
+        eng = Engine(units, pol)
+        if (un, fn) not in eng.unitfuncs:
+            raise AnalysisBroken('%s not found' % fn)
+        eng.funcs[fn] = (un, eng.unitfuncs[(un, fn)])
+        eng.analyze(fn, [X(0), SEC('type'), SEC('version'), X(3), X(4)])
+        F = irf.Func(units[un], eng.unitfuncs[(un, fn)])
+        # branches of the method itself that guard a NULL return
+        guard_labels = None
+        for (f_, line, iid, what), (ctx, labels) in eng.alarms.items():
+            if f_ != fn or what != 'branch' or ctx:
+                continue
+            br = F.insts[iid]
+            for t in br['ops'][1:]:
+                tb = next(b for b in F.blocks if b['id'] == t['v'])
+                term = tb['insts'][-1]
+                isnull = False
+                if term['op'] == 'ret' and term['ops'] and term['ops'][0]['k'] == 'null':
+                    isnull = True
+                elif term['op'] == 'br' and len(term['ops']) == 1:
+                    rb = next(b for b in F.blocks if b['id'] == term['ops'][0]['v'])
+                    for i in rb['insts']:
+                        if i['op'] == 'phi':
+                            for o, inb in zip(i['ops'], i['inb']):
+                                if inb == tb['id'] and o['k'] == 'null' and rb['insts'][-1]['op'] == 'ret':
+                                    isnull = True
+                if isnull:
+                    guard_labels = set(labels) | (guard_labels or set())
+        if guard_labels is None:
+            raise AnalysisBroken('%s: the branch guarding the NULL return was not found / depends on nothing' % fn)
+        for a in atoms:
+            inst = '%s: acceptance of a record may depend on %s' % (fn, {'seq': 'the sequence number', 'type': 'the record type', 'version': 'the protocol version',
+                                                                          'len': 'the record length', 'data': 'the record bytes (payload and tag)', 'key': 'the keys'}[a])
+            if a in guard_labels:
+                chk.ok(R, inst, 'src/ssl/ssl_rec_%s.c' % mode, 'labels reaching the accept test: %s' % sorted(guard_labels))
+            else:
+                chk.violation(R, inst, 'src/ssl/ssl_rec_%s.c' % mode,
+                              'the accept/reject test of %s is independent of %s: that input is not authenticated (labels reaching it: %s)' % (fn, a, sorted(guard_labels)),
+                              key='%s %s %s' % (R, fn, a))
+
+
 def run(tier):
     chk = report.Check('C02', tier,
                        'Static necessary conditions of "no forged, replayed or reordered record is delivered": in each of the 4 decrypt methods every '
@@ -151,6 +216,7 @@ def run(tier):
     engine_rules(chk)
     length_gates(chk)
     ordering(chk)
+    dep_rules(chk)
     c20.seq_rules(chk)
     chk.floor('rule instances', len(chk.obls), 40)
     return chk.finish()
